@@ -7,6 +7,7 @@ import (
 	"fmt"
 	"os"
 	"path/filepath"
+	"runtime/debug"
 	"sort"
 	"strconv"
 	"strings"
@@ -80,6 +81,38 @@ func NewReport(prop string) *Report {
 		}
 	}
 	return r
+}
+
+// Guard is deferred by a checker's main right after NewReport. A panic that reaches main was raised either by
+// the library (a call made outside a Catch: the same calls do not panic on the unchanged tree) - that is
+// reported as a violation, with what was found before it - or by the checker's own code, which stays an
+// engine error (exit 2).
+func (r *Report) Guard() {
+	p := recover()
+	if p == nil {
+		return
+	}
+	stack := string(debug.Stack())
+	// the frames below the last "panic(" line, runtime frames skipped: where the panic was raised
+	origin := ""
+	if i := strings.LastIndex(stack, "\npanic("); i >= 0 {
+		lines := strings.Split(stack[i+1:], "\n")
+		for k := 2; k+1 < len(lines); k += 2 {
+			fn := lines[k]
+			if strings.HasPrefix(fn, "runtime.") || strings.HasPrefix(fn, "runtime/") || strings.HasPrefix(fn, "reflect.") || strings.HasPrefix(fn, "sort.") || strings.HasPrefix(fn, "strconv.") {
+				continue
+			}
+			origin = fn
+			break
+		}
+	}
+	if !strings.Contains(origin, "TeaEntityLab/fpGo") {
+		fmt.Printf("ENGINE-ERROR: the checker panicked: %v\n%s\n", p, stack)
+		os.Exit(2)
+	}
+	r.Violation(r.Prop+"|uncaught-panic", fmt.Sprintf("the library panicked in a call the checker makes unguarded (it does not panic on the unchanged tree): %v, raised in %s", p, origin), map[string]interface{}{"stack": stack})
+	r.NotExhaustive("the run ended at a panic of the library")
+	r.Finish()
 }
 
 // Engine reports an engine error (exit 2): never a VIOLATION.
